@@ -37,31 +37,60 @@ def by_inst(db):
     return out
 
 
-def closed_form_start(ctor):
-    """(canonical start term as a function of the loop counter `$i`, description) for the value stored into stacks_[i] by the constructor"""
-    # the assignment stacks_[i] = fixed_memory_stack(X) inside a loop
-    loop_blocks = [b for b in ctor.blocks.values() if b.get('term') and b['term'].get('cls') in ('ForStmt', 'WhileStmt')]
-    if not loop_blocks:
-        return None, 'constructor has no loop over the regions'
-    cond = loop_blocks[0]['term'].get('cond')
-    counter = None
-    for s in subterms(cond):
-        if s.get('k') == 'local':
-            counter = s
-            break
-    if counter is None:
-        return None, 'loop counter not found'
-    X = None
+def closed_form_start(ctor, db=None):
+    """(canonical start term as a function of the region index `$i`, description) for the value stored into stacks_[i] by the
+    constructor.  The loop is summarised as a counted loop (engine/loops.py: up or down, for / while / do); the region index is
+    whatever expression of the counter indexes stacks_ (the counter itself, `remaining - 1`, a local naming either), and the loop has
+    to initialise every region 0 .. N-1 exactly once."""
+    from engine import loops, linear
+    assign = None
     for e, t in flow.call_events(ctor):
         if t.get('short') == 'operator=' and isinstance(t.get('recv'), dict):
             r = sym.strip_casts(t['recv'])
             if r.get('k') == 'bin' and r.get('op') == '[]' and sym.canon(r['l']) == 'this.stacks_':
-                idx = sym.strip_casts(r['r'])
-                if idx.get('did') != counter.get('did'):
-                    return None, 'region stacks are not indexed by the loop counter'
-                arg = sym.strip_casts(t['args'][0])
-                if arg.get('k') == 'construct' and arg.get('args'):
-                    X = sym.strip_casts(arg['args'][0])
+                assign = (e, t, r)
+    if assign is None:
+        return None, 'no assignment stacks_[i] = fixed_memory_stack(...) in the constructor'
+    e_as, t_as, r_as = assign
+    lps = [lp for lp in loops.find_loops(ctor) if e_as.block in lp.body]
+    if not lps:
+        return None, 'constructor has no loop over the regions'
+    lp = lps[0]
+    c = loops.counted(lp)
+    if isinstance(c, str):
+        return None, 'the loop over the regions is not a counted loop: ' + c
+    if not loops.once_per_cycle(lp, e_as.block):
+        return None, 'the region stack is not assigned exactly once per cycle'
+    counter = c.ctr_term
+    lv = common.single_assignment_locals(ctor)
+    lv.pop(counter.get('did'), None)
+    idx = common.expand_locals(sym.strip_casts(r_as['r']), lv)
+    ckey = sym.canon(counter)
+    li = linear.lin(idx)
+    if li.get(ckey) != 1 or set(li) - {ckey, ''}:
+        return None, 'region stacks are not indexed by the loop counter'
+    shift = li.get('', 0)                    # index = counter + shift
+    # coverage: N cycles, first index 0 (counting up) or N-1 (counting down)
+    for vals, pre in loops.entry_state(ctor, lp, db=db, roles={}):
+        I = linear.lin(loops.subst_vals(ctor, counter, vals))
+        B = linear.lin(loops.subst_vals(ctor, c.bound, vals))
+        T, needs = loops.evaluations(c, I, B)
+        runs = loops.executions(c, e_as.block, T)
+        first = linear._add(I, {'': shift} if shift else {}, 1)
+        if c.ca:
+            first = linear._add(first, {'': c.step}, 1) if _step_precedes(ctor, lp, c, e_as) else first
+        natoms = [a for a in runs if a]
+        if len(natoms) == 1 and runs == {natoms[0]: 1}:
+            nkey = natoms[0]
+            want_first = {} if c.step == 1 else {nkey: 1, '': -1}
+            if first != want_first:
+                return ('COVER', 'the loop initialises regions starting at index [%s] for [%s] cycles: not the regions 0 .. N-1' % (linear.fmt(first), linear.fmt(runs))), 'coverage'
+        elif runs and all(isinstance(v, int) for v in runs.values()) and not natoms:
+            pass        # N folded to a literal: the count is a number, nothing symbolic to compare
+    arg = sym.strip_casts(t_as['args'][0])
+    X = None
+    if arg.get('k') == 'construct' and arg.get('args'):
+        X = sym.strip_casts(arg['args'][0])
     if X is None:
         return None, 'no assignment stacks_[i] = fixed_memory_stack(...) in the constructor'
     roles_i = {'k': 'raw', 's': '$i'}
@@ -69,11 +98,14 @@ def closed_form_start(ctor):
     def subst_counter(t):
         if not isinstance(t, dict):
             return t
-        if t.get('k') == 'local' and t.get('did') == counter.get('did'):
+        if t.get('k') in ('local', 'bin') and linear.lin(t) == li:
             return roles_i
         return {k: (subst_counter(v) if isinstance(v, dict) else [subst_counter(x) if isinstance(x, dict) else x for x in v] if isinstance(v, list) else v)
                 for k, v in t.items()}
-    if X.get('k') == 'local':
+    Xe = common.expand_locals(X, lv)
+    if X.get('k') == 'local' and X.get('did') not in lv:
+        if shift != 0 or c.step != 1:
+            return None, 'accumulated region starts with a loop that does not count the index up from 0'
         # accumulator: init c0 before the loop, `X += step` once per iteration
         c0 = None
         step = None
@@ -101,7 +133,16 @@ def closed_form_start(ctor):
                     for k, v in t.items()}
         term = {'k': 'bin', 'op': '+', 'l': inline_consts(c0), 'r': {'k': 'bin', 'op': '*', 'l': roles_i, 'r': inline_consts(step)}, 'lptr': True}
         return sym.canon(term), 'accumulator: start + i * step'
-    return ('CALL', subst_counter(X)), 'direct'
+    return ('CALL', subst_counter(Xe)), 'direct'
+
+
+def _step_precedes(ctor, lp, c, e_as):
+    """in a do-while cycle: is the counter stepped before the region assignment?"""
+    from engine import loops
+    for e in ctor.events():
+        if (e.block in lp.body) and loops._counter_step(e, c.did) not in (0, None):
+            return ctor.ev_dominates(e, e_as)
+    return False
 
 
 def _lin_of_canon(c):
@@ -145,11 +186,14 @@ def check_instance(run, db, cls, fns):
         return
     # ---- start of each region after construction
     for ctor in by.get('ctor', []):
-        cf, how = closed_form_start(ctor)
+        cf, how = closed_form_start(ctor, db)
         inst = '%s [%s]' % (ctor.display, db.config)
         site = {'function': CT + '::<ctor>', 'role': 'region start agrees with block_start'}
         if cf is None:
             run.broke('%s: %s' % (ctor.display, how))
+            continue
+        if isinstance(cf, tuple) and cf[0] == 'COVER':
+            run.violation('R-TERM.start', inst, ctor.loc, cf[1], site=dict(site, role='every region is initialised'))
             continue
         if isinstance(cf, tuple):
             t = cf[1]
